@@ -13,6 +13,7 @@ import UberjobModel.Model.Queues
 import UberjobModel.Model.ProgressDrv
 import UberjobModel.Model.PhysDrv
 import UberjobModel.Model.ExecDrv
+import UberjobModel.Model.EngineFine
 /-!
   Line-protocol driver for the executable models (one request per line, one reply per line).
   Used by the Python harness for the correspondence checks (T2/T3).
@@ -111,11 +112,46 @@ def cmdKahn (rest : String) : String :=
     | none => "cycle"
   | _ => "bad-op"
 
+def parseFine (t : String) : Option EngineFine.Label2 :=
+  match (t.trimAscii.toString.splitOn " ").filter (· ≠ "") with
+  | ["acq", w, y] => do some (.acquire (← w.toNat?) (← y.toNat?))
+  | ["dec", w] => do some (.dec (← w.toNat?))
+  | ["test", w] => do some (.test (← w.toNat?))
+  | ["put", w] => do some (.put (← w.toNat?))
+  | ["unl", w] => do some (.unlock (← w.toNat?))
+  | "b" :: rest => (parseLabel rest).map .base
+  | _ => none
+
+def runFine (g : Engine.Graph) (cfg : Engine.Cfg) : EngineFine.St2 → Nat → List String → String
+  | s, _, [] => "ok " ++ showSt g s.c ++ s!" lock={s.lock.isSome}"
+  | s, k, t :: ts =>
+    match parseFine t with
+    | none => s!"bad-label {k} {t}"
+    | some l =>
+      match EngineFine.step2? g cfg s l with
+      | some s' => runFine g cfg s' (k + 1) ts
+      | none => s!"reject {k} {t} :: {showSt g s.c} lock={s.lock.isSome}"
+
+/-- `fine W MAXERR|none | n0 n1 ... | u,v u,v ... | label ; label ; ...` (stateless) -/
+def cmdFine (rest : String) : String :=
+  match rest.splitOn "|" with
+  | [hd, ns, es, ls] =>
+    match (hd.trimAscii.toString.splitOn " ").filter (· ≠ "") with
+    | [w, me] =>
+      match w.toNat? with
+      | some w =>
+        let g := Engine.Graph.ofEdges (nats ns) (parseEdges es)
+        runFine g ⟨w, me.toNat?⟩ (EngineFine.init2 g) 0 ((ls.splitOn ";").filter (fun t => t.trimAscii.toString ≠ ""))
+      | none => "bad-op"
+    | _ => "bad-op"
+  | _ => "bad-op"
+
 def step (c : Ctx) (line : String) : Ctx × String :=
   let line := line.trimAscii.toString
   match (line.splitOn " ").filter (· ≠ "") with
   | "engine" :: _ => cmdEngine (line.drop 6).toString
   | "kahn" :: _ => (c, cmdKahn line)
+  | "fine" :: _ => (c, cmdFine (line.drop 4).toString)
   | "fs" :: _ => (c, Uberjob.FileStore.drv line)
   | "text" :: _ => (c, Uberjob.TextCodec.drv line)
   | "c18" :: _ => (c, Uberjob.Time.drv line)
